@@ -104,18 +104,15 @@ fn gen_label(gen: &str) -> &'static str {
     }
 }
 
-fn run_c14_one<D: Dgu>(c: &C14) -> R {
-    let call = if c.gen == "biclique" {
+fn run_c14_one<D: Dgu>(c: &C14, model: &Option<G>) -> R {
+    let call = if ["trivial", "claw", "utility"].contains(&c.gen.as_str()) {
+        format!("{}::{}()", D::NAME, c.gen)
+    } else if c.gen == "biclique" {
         format!("{}::biclique({}, {})", D::NAME, c.a, c.b)
     } else {
         format!("{}::{}({})", D::NAME, c.gen, c.a)
     };
-    let call = if ["trivial", "claw", "utility"].contains(&c.gen.as_str()) {
-        format!("{}::{}()", D::NAME, c.gen)
-    } else {
-        call
-    };
-    match gen_model(&c.gen, c.a, c.b) {
+    match model {
         None => {
             ensure!(
                 format!("{call}: inadmissible parameters panic"),
@@ -125,7 +122,14 @@ fn run_c14_one<D: Dgu>(c: &C14) -> R {
         }
         Some(g) => {
             let d = gen_call::<D>(&c.gen, c.a, c.b);
-            same_probed(&d, &g, &format!("{call} has exactly its defining arc set"))?;
+            let what = format!("{call} has exactly its defining arc set");
+            if g.order() <= 70 {
+                same_probed(&d, g, &what)?;
+            } else {
+                // every arc is still compared through arcs(); has_arc is probed
+                // at the ids next to the word-size boundaries only
+                same_sampled(&d, g, &what)?;
+            }
         }
     }
     Ok(())
@@ -138,9 +142,10 @@ impl Case for C14 {
 
     fn run(&self) -> R {
         at(gen_label(&self.gen));
+        let model = gen_model(&self.gen, self.a, self.b);
         // every representation equals the defining arc set, hence they all agree
         for repr in UNWEIGHTED {
-            with_urepr!(repr, run_c14_one(self))?;
+            with_urepr!(repr, run_c14_one(self, &model))?;
         }
         Ok(())
     }
@@ -170,8 +175,10 @@ pub fn search_c14(_seed: u64, ctx: &mut Ctx) -> Option<J> {
             return Some(f);
         }
     }
-    // order 0 (and wheel 1..3) are inadmissible: covered by order starting at 0
-    for order in 0..=70usize {
+    // order 0 (and wheel 1..3) are inadmissible: covered by order starting at 0;
+    // 1..=200 crosses the 64-bit blocks (64, 128, 192), the orders above the
+    // core count (17, 33, 67) and every chunking case of the parallel impls
+    for order in 0..=200usize {
         for gen in GENS {
             if let Some(f) = ctx.eval(&mk(gen, order, 0)) {
                 return Some(f);
@@ -189,7 +196,7 @@ pub fn search_c14(_seed: u64, ctx: &mut Ctx) -> Option<J> {
         }
     }
     // a few larger bicliques across the 64-bit block boundary
-    for (m, n) in [(1, 63), (32, 32), (33, 32), (60, 9), (9, 60)] {
+    for (m, n) in [(1, 63), (32, 32), (33, 32), (60, 9), (9, 60), (64, 64), (1, 128), (100, 30)] {
         if let Some(f) = ctx.eval(&mk("biclique", m, n)) {
             return Some(f);
         }
